@@ -255,6 +255,7 @@ pub fn min_allowed(reqs: &[Requirement], id: rq::CId) -> (r: Complexity)
     isr = X.fn(ANCHOR, "is_split_required")
     ca = X.fn(ANCHOR, "contains_any")
     isr.rewrite("R5", ca.orig, "", why="nested helper hoisted out (Verus rejects `for t in <array by value>`); trusted by contract")
+    isr.inline_local_consts()
     isr.rewrite("R5", "transform.as_str().to_string()", "str_to_string(transform.as_str())", why="&str::to_string has no Verus specification")
     isr.ret_name("split")
     isr.contract("""
@@ -308,3 +309,15 @@ pub fn contains_any<const C: usize>(set: &HashSet<String>, elements: [&'static s
                       "#[verifier::external_body]\npub fn complexity_min(a: Complexity, b: Complexity) -> (r: Complexity) ensures r == (if rank(a) <= rank(b) { a } else { b }), { unimplemented!() }\n",
                       req.text, ice, ic.text, min_allowed, cm.text, ca_text, isr.text, ro.text])
     return PRELUDE + body + "\n} // verus!\nfn main() {}\n"
+
+
+# ----------------------------------------------------------------------------- replay on the real compiler
+def replay(failure):
+    """Rows about what may share a pipeline with a set operation: programs with DISTINCT / filter / sort / take after a set operation must compile without a panic."""
+    import setops_reach
+    return setops_reach.replay(failure)
+
+
+def rerun(doc):
+    import setops_reach
+    return setops_reach.rerun(doc)
